@@ -29,6 +29,8 @@
  *   fds                                        transfer descriptors still open
  *   env ...                                    ignored (syscall results for the model side)
  * per processed message:  q <ans>* , fs/x lines, w/tw lines, "= c<i> ..." status, "#t <hash>"
+ *   (sandbox tree: names, sizes, contents) and "#c <hash>" (canary: everything outside the TightVNC
+ *   root incl. file modification times)
  */
 #define _GNU_SOURCE
 #include <dlfcn.h>
@@ -347,7 +349,7 @@ static void sandbox_make(void) {
   mkd("root2"); mkfile("root2/secret", 33); mkfile("secret.txt", 44);
   mkfile("zz.bin", 3000);   /* compressible? content is a ramp: yes */
 }
-static uint64_t th; static char tcur[4300];
+static uint64_t th, ch; static char tcur[4300];
 static void tree_rec(const char *p) {
   DIR *d = opendir(p); struct dirent *de; struct stat st; uint64_t acc = 0;
   if (!d) return;
@@ -361,12 +363,22 @@ static void tree_rec(const char *p) {
       FILE *f = fopen(q, "rb"); if (f) { static unsigned char b[65536]; size_t n = fread(b, 1, sizeof b, f); fclose(f); h ^= vh_fnv(b, n) * 31; }
     }
     acc += h * 0x9E3779B97F4A7C15ull;     /* order independent */
+    { /* canary hash: everything OUTSIDE the TightVNC root, including modification times of files */
+      size_t rl = strlen(SB) + 5; /* "<SB>/root" */
+      int under_root = !strncmp(q, SB, strlen(SB)) && !strncmp(q + strlen(SB), "/root", 5) && (q[rl] == '/' || q[rl] == 0);
+      if (!under_root) {
+        uint64_t c = h;
+        if (S_ISREG(st.st_mode)) c ^= ((uint64_t)st.st_mtim.tv_sec * 1000000007ull) ^ (uint64_t)st.st_mtim.tv_nsec;
+        ch += c * 0xD6E8FEB86659FD93ull;
+      }
+    }
     if (S_ISDIR(st.st_mode)) tree_rec(q);
   }
   closedir(d);
   th += acc;
 }
-static void print_tree(void) { int l = logging; logging = 0; th = 0; tree_rec(SB); logging = l; printf("#t %016llx\n", (unsigned long long)th); }
+static void print_tree(void) { int l = logging; logging = 0; th = 0; ch = 0; tree_rec(SB); logging = l;
+  printf("#t %016llx\n#c %016llx\n", (unsigned long long)th, (unsigned long long)ch); }
 
 /* ------------------------------------------------------------------ wire parsing (server -> client) */
 static uint32_t be32(const unsigned char *p) { return ((uint32_t)p[0] << 24) | (p[1] << 16) | (p[2] << 8) | p[3]; }
